@@ -132,7 +132,8 @@ Print Assumptions C04_runnable_iff_all_gifts_resolved_any_time_partial.
 
 (* connection loss (Broker.finish on the receiver): from then on no call is entered, whatever happens next -- calls
    issued, stalls released, bytes, gifts resolving (the delivery that was waiting for one is refused, not entered), turns *)
-(* FULL STATEMENT (false, see below): forall ops more, lost (run ops) = true -> entered (run (ops ++ more)) = entered (run ops).
+(* EXTRA THEOREMS, BEYOND THE PROPERTY TEXT (C04 says nothing about connection loss): robustness observation.
+   FULL STATEMENT (false, see below): forall ops more, lost (run ops) = true -> entered (run (ops ++ more)) = entered (run ops).
    Proved: the same for every continuation that does not contain the successful resolution of a reference the PEER sent with
    giftID 0 (honest senders never do: Broker.makeGift counts from 1) -- and for EVERY continuation as soon as Broker._doCall
    refuses to run on a finished Broker (docall_checks_disconnected, read from the source: false on the current tree) *)
@@ -142,8 +143,9 @@ Theorem C04_nothing_entered_after_loss_partial : forall ops more,
 Proof. exact nothing_entered_after_loss. Qed.
 Print Assumptions C04_nothing_entered_after_loss_partial.
 
-(* ... and with such a reference it fails: the call is entered after the receiver has lost the connection.  The witness is
-   replayed on the real Broker pair by the check (corpus r5b_giftid0_after_loss.json) *)
+(* (beyond the property text: robustness observation) ... and with such a reference it fails: the call is entered after the
+   receiver has lost the connection -- once, and in order, so C04 itself holds.  The witness is replayed on the real Broker
+   pair by the check (corpus r5b_giftid0_after_loss.json), which records a note, not a violation *)
 Theorem C04_nothing_entered_after_loss_refuted : docall_checks_disconnected = false ->
   exists ops more, lost (run ops) = true /\ entered (run ops) = [] /\ entered (run (ops ++ more)) = [0].
 Proof. exact nothing_entered_after_loss_refuted. Qed.
